@@ -568,7 +568,7 @@ class ExprMixin:
             return ty.TDict(t.k, t.v, True)
         return t
 
-    def eval_pure(self, thunk, guard=None, allow_raise=False):
+    def eval_pure(self, thunk, guard=None, allow_raise=False, raw=False):
         """Evaluate thunk over all its paths and merge the results (no heap effect allowed)."""
         save_script, save_pos = self.script, self.pos
         n0 = len(self.pc)
@@ -626,6 +626,8 @@ class ExprMixin:
             raise PathEnd()
         if allow_raise and raises:
             self._pure_raises = raises
+        if raw:
+            return results
         return self.merge(results)
 
     def heap_differs(self, a, b):
